@@ -120,10 +120,12 @@ def scratch_tree():
 
 def apply_edit(root, m):
     if "revert" in m:
-        diff = subprocess.run(["git", "-C", "/repo", "show", m["revert"], "--", "src"], capture_output=True, text=True, check=True).stdout
-        p = subprocess.run(["patch", "-R", "-p1", "-s", "-d", root], input=diff, text=True, capture_output=True)
-        if p.returncode != 0:
-            raise RuntimeError("cannot revert %s: %s %s" % (m["revert"], p.stdout, p.stderr))
+        revs = m["revert"] if isinstance(m["revert"], list) else [m["revert"]]
+        for rev in revs:
+            diff = subprocess.run(["git", "-C", "/repo", "show", rev, "--", "src"], capture_output=True, text=True, check=True).stdout
+            p = subprocess.run(["patch", "-R", "-p1", "-s", "-d", root], input=diff, text=True, capture_output=True)
+            if p.returncode != 0:
+                raise RuntimeError("cannot revert %s: %s %s" % (rev, p.stdout, p.stderr))
         return
     if "patch" in m:
         diff = open(os.path.join(VERIF, m["patch"])).read()
